@@ -123,6 +123,7 @@ func buildSide(c gcfg, side string) []byte {
 	exp("tset", t2I32, nil, nil, ref((&wb.Asm{}).LocalGet(0), 1).TableSet(0))
 	tyID := m.Type(nil, tI32)
 	tyGrow := m.Type(tI32, tI32)
+	exp("tnull", tI32, tI32, nil, (&wb.Asm{}).LocalGet(0).TableGet(0).RefIsNull())
 	exp("tcall", tI32, tI32, nil, (&wb.Asm{}).LocalGet(0).CallIndirect(tyID, 0))
 	// ci_across(a1,v1,slot,a2,v2): store; call_indirect (i32)->i32 slot with argument 1; store; memory.size
 	exp("ci_across", []byte{wb.I32, wb.I32, wb.I32, wb.I32, wb.I32}, tI32, nil,
